@@ -135,7 +135,8 @@ class Result:
     def verdict(self):
         """pass | violation | inconclusive"""
         if self.status == "success":
-            if self.covers_total and self.covers_sat < self.covers_total:
+            need = self.covers_total if self.h.covers == "all" else min(1, self.covers_total)
+            if self.covers_sat < need:
                 return "inconclusive"  # vacuous
             return "pass"
         if self.status == "failed":
@@ -311,7 +312,7 @@ def write_evidence(prop, tier, seed, results, wall, cmds, known_lines, violation
     hs = [r.h for r in results]
     obligations = len(results)
     discharged = sum(1 for r in results if r.verdict == "pass")
-    nontrivial = sum(1 for r in results if r.verdict == "pass" and r.covers_total > 0 and r.covers_sat == r.covers_total)
+    nontrivial = sum(1 for r in results if r.verdict == "pass" and r.covers_sat > 0)
     samples = []
     for r in results:
         s = r.h.to_json()
@@ -390,6 +391,25 @@ def check(prop, tier):
             for name, r in res.items():
                 results[name] = r
                 shard_of[name] = futs[fut]
+    # Second pass: a harness without a verdict (its shard's kani-driver died, the machine was busy, CBMC hit
+    # the wall or memory cap) is re-run once on its own with a larger cap before it is called inconclusive.
+    retry = [r.h for r in results.values() if r.status in ("missing", "timeout", "error")]
+    if retry and not os.environ.get("VERIF_NO_RETRY"):
+        def rerun(idx_h):
+            idx, h = idx_h
+            h2cap = int((h.cap or DEFAULT_CAP[tier]) * 1.5)
+            old_cap = h.cap
+            h.cap = h2cap
+            try:
+                return run_shard(idx % NSHARDS, [h], tier, tag + "-retry%d" % idx)
+            finally:
+                h.cap = old_cap
+        with concurrent.futures.ThreadPoolExecutor(max_workers=min(len(retry), max(1, NSHARDS // 2))) as ex:
+            for (res, log, dt, cmd), h in zip(ex.map(rerun, list(enumerate(retry))), retry):
+                cmds.append(cmd)
+                for name, r in res.items():
+                    r.note = (r.note + " " if r.note else "") + "(second attempt, run alone)"
+                    results[name] = r
     known, _fixed = load_known()
     known_lines, violations, inconclusive = [], [], []
     ordered = [results[h.full_name] for h in sorted(hs, key=lambda h: h.name)]
@@ -416,7 +436,7 @@ def check(prop, tier):
             violations.append(r)
         elif v == "inconclusive":
             why = r.note or r.status
-            if r.status == "success" and r.covers_sat < r.covers_total:
+            if r.status == "success":
                 why = "vacuous: %d of %d reachability witnesses unsatisfied" % (r.covers_total - r.covers_sat, r.covers_total)
             elif r.status == "failed":
                 why = "only unwinding/unsupported-construct failures: " + "; ".join(r.failed_checks[:3])
